@@ -37,6 +37,15 @@ type memObs struct {
 	Pos   int      `json:"pos"`
 }
 
+// memSrc describes the reader handed to DupToMemfd: st_size of the underlying file (-1: none),
+// the offset it starts at, and the number of bytes it yields from there.
+type memSrc struct {
+	Size   int    `json:"size"`
+	Pos    int    `json:"pos"`
+	Yields int    `json:"yields"`
+	Path   string `json:"path,omitempty"`
+}
+
 type memSample struct {
 	Off int `json:"off"`
 	B   int `json:"b"`
@@ -53,6 +62,7 @@ type memEv struct {
 	Ok      *bool        `json:"ok,omitempty"`
 	Err     string       `json:"err,omitempty"`
 	SizeIn  *int         `json:"size_in,omitempty"`
+	Src     *memSrc      `json:"src,omitempty"`
 	ShaIn   string       `json:"sha_in,omitempty"`
 	Obs     *memObs      `json:"obs,omitempty"`
 	Samples *[]memSample `json:"samples,omitempty"`
@@ -71,6 +81,7 @@ type memOut struct {
 	Exec   bool    `json:"exec"`
 	Ev     []memEv `json:"ev"`
 	Setup  string  `json:"setup,omitempty"`
+	Skip   string  `json:"skip,omitempty"` // the machine offers no such source (kernel attribute files)
 }
 
 func patByte(pat string, i int) byte {
@@ -328,37 +339,107 @@ func hostOp(f *os.File, op string) (target, res string) {
 func runMemCase(c memCase, probeDir, scratch string) memOut {
 	out := memOut{ID: c.ID, Size: c.Size, Pat: c.Pat, Reader: c.Reader, Exec: c.Exec, Ev: []memEv{}}
 	var data []byte
-	if c.Pat == "probe" {
+	src := memSrc{Size: -1}
+	switch c.Pat {
+	case "probe":
 		b, err := os.ReadFile(filepath.Join(probeDir, "contfs"))
 		if err != nil {
 			out.Setup = err.Error()
 			return out
 		}
 		data = b
-	} else {
+	case "kernel":
+		// a kernel attribute file whose st_size is not what it yields; the expected bytes are
+		// read through an independent descriptor (stable files only: two reads must agree)
+		cands := []string{"/sys/devices/system/cpu/possible", "/sys/devices/system/cpu/online", "/sys/kernel/mm/transparent_hugepage/enabled", "/sys/kernel/osrelease"}
+		if c.Reader == "procattr" {
+			cands = []string{"/proc/version", "/proc/sys/kernel/ostype", "/proc/filesystems"}
+		}
+		for _, p := range cands {
+			b1, err1 := os.ReadFile(p)
+			b2, err2 := os.ReadFile(p)
+			fi, err3 := os.Stat(p)
+			if err1 != nil || err2 != nil || err3 != nil || !fi.Mode().IsRegular() || !bytes.Equal(b1, b2) || len(b1) == 0 {
+				continue
+			}
+			if (c.Reader == "sysattr" && int(fi.Size()) > len(b1)) || (c.Reader == "procattr" && int(fi.Size()) < len(b1)) {
+				data, src.Path, src.Size = b1, p, int(fi.Size())
+				break
+			}
+		}
+		if src.Path == "" {
+			out.Skip = "no " + c.Reader + " file with a differing st_size on this machine"
+			return out
+		}
+	default:
 		data = makeData(c.Pat, c.Size)
 	}
+	src.Yields = len(data)
 	sum := sha256.Sum256(data)
+	header := bytes.Repeat([]byte{0xAA}, 1000+c.ID%3000)
+	trailer := bytes.Repeat([]byte{0x55}, 517+c.ID%5000)
+	mkfile := func(parts ...[]byte) (*os.File, error) {
+		p := filepath.Join(scratch, fmt.Sprintf("memsrc.%d", c.ID))
+		if err := os.WriteFile(p, bytes.Join(parts, nil), 0600); err != nil {
+			return nil, err
+		}
+		f, err := os.Open(p)
+		os.Remove(p)
+		if err == nil {
+			if fi, e2 := f.Stat(); e2 == nil {
+				src.Size = int(fi.Size())
+			}
+		}
+		return f, err
+	}
 	var rd io.Reader
 	switch c.Reader {
 	case "bytes":
 		rd = bytes.NewReader(data)
 	case "short":
 		rd = &shortReader{b: data}
-	case "file":
-		p := filepath.Join(scratch, fmt.Sprintf("memsrc.%d", c.ID))
-		if err := os.WriteFile(p, data, 0600); err != nil {
-			out.Setup = err.Error()
-			return out
-		}
-		defer os.Remove(p)
-		f, err := os.Open(p)
+	case "sysattr", "procattr":
+		f, err := os.Open(src.Path)
 		if err != nil {
 			out.Setup = err.Error()
 			return out
 		}
 		defer f.Close()
 		rd = f
+	case "file", "fileoff", "limited", "section":
+		var f *os.File
+		var err error
+		switch c.Reader {
+		case "file":
+			f, err = mkfile(data)
+		case "fileoff":
+			f, err = mkfile(header, data)
+		case "limited":
+			f, err = mkfile(data, trailer)
+		default:
+			f, err = mkfile(header, data, trailer)
+		}
+		if err != nil {
+			out.Setup = err.Error()
+			return out
+		}
+		defer f.Close()
+		switch c.Reader {
+		case "file":
+			rd = f
+		case "fileoff": // the caller consumed a header; the executable is the rest of the file
+			if _, err := io.ReadFull(f, make([]byte, len(header))); err != nil {
+				out.Setup = err.Error()
+				return out
+			}
+			src.Pos = len(header)
+			rd = f
+		case "limited":
+			rd = io.LimitReader(f, int64(len(data)))
+		default:
+			src.Pos = len(header)
+			rd = io.NewSectionReader(f, int64(len(header)), int64(len(data)))
+		}
 	case "pipe":
 		r, w, err := os.Pipe()
 		if err != nil {
@@ -388,7 +469,7 @@ func runMemCase(c memCase, probeDir, scratch string) memOut {
 	f, err := memfd.DupToMemfd("verif_c13", rd)
 	ok := err == nil
 	n := len(data)
-	ev := memEv{E: "dup", Ok: &ok, SizeIn: &n, ShaIn: hex.EncodeToString(sum[:])}
+	ev := memEv{E: "dup", Ok: &ok, SizeIn: &n, Src: &src, ShaIn: hex.EncodeToString(sum[:])}
 	if err != nil {
 		ev.Err = err.Error()
 		out.Ev = append(out.Ev, ev)
@@ -404,7 +485,7 @@ func runMemCase(c memCase, probeDir, scratch string) memOut {
 	}
 	samples := []memSample{}
 	h := memEv{E: "handover", Obs: obs, Samples: &samples}
-	if c.Pat != "probe" {
+	if c.Pat != "probe" && c.Pat != "kernel" {
 		one := make([]byte, 1)
 		seen := map[int]bool{}
 		for _, off := range []int{0, 1, 4095, 4096, 4097, obs.Size / 2, obs.Size - 2, obs.Size - 1} {
